@@ -214,4 +214,53 @@ def run (chk : Callback → Bytes → Bool) (cbs : List Callback) : St → List 
 def St.init (fired : List Nat) (timeout : Nat) : St :=
   { fired := fired, t := timeout, el := 0, acc := [], full := [] }
 
+/-! ## the whole `SendWithCallbacks` operation, with the faults it can meet
+
+`SendWithCallbacks(input, callbacks, timeout, opts…)`: `NewOperation(opts…)` may fail (an option
+returned an error other than "ignored") → that error, nothing is written; a non-empty input is
+written with a return, a failing write → that error, no callback loop; then the loop. In the loop a
+poll may return an error instead of bytes (`Channel.Read`: transport error, or the read loop has
+exited after EOF) → the operation returns that error at once. -/
+
+/-- the loop state after the whole history if the operation is still polling then (`none`: it has
+    returned while consuming the history) -/
+def finalState (chk : Callback → Bytes → Bool) (cbs : List Callback) : St → List Arrival → Option St
+  | s, [] => some s
+  | s, a :: rest =>
+    match step chk cbs s a with
+    | .done _ _ _ => none
+    | .cont s' _ => finalState chk cbs s' rest
+
+inductive OpOutcome
+  | loop (o : Outcome)     -- the callback loop decided (complete / once / fn / timeout)
+  | optionError            -- NewOperation refused an option
+  | writeError             -- writing the input failed
+  | readError              -- a poll returned an error
+  deriving Repr, DecidableEq
+
+structure OpRun where
+  events : List Event
+  outcome : OpOutcome
+  fired : List Nat
+  wrote : Bool            -- the input (and its return) reached the device
+
+structure OpFaults where
+  optErr : Bool           -- an operation option returns a non-"ignored" error
+  writeFails : Bool       -- the transport refuses the input write
+  readErr : Option Nat    -- after the arrival history a poll returns an error, `gap` later
+
+/-- `SendWithCallbacks` -/
+def sendOp (chk : Callback → Bytes → Bool) (cbs : List Callback) (fired : List Nat) (timeout : Nat)
+    (input : Bytes) (f : OpFaults) (arrivals : List Arrival) : OpRun :=
+  if f.optErr then ⟨[], .optionError, fired, false⟩
+  else if !input.isEmpty && f.writeFails then ⟨[], .writeError, fired, false⟩
+  else
+    let r := run chk cbs (St.init fired timeout) arrivals
+    let wrote := !input.isEmpty
+    match f.readErr, finalState chk cbs (St.init fired timeout) arrivals with
+    | some gap, some s' =>
+      if s'.t ≤ s'.el + gap then ⟨r.events, .loop r.outcome, r.fired, wrote⟩
+      else ⟨r.events, .readError, r.fired, wrote⟩
+    | _, _ => ⟨r.events, .loop r.outcome, r.fired, wrote⟩
+
 end Scrapli.Cb
